@@ -4,6 +4,7 @@
 from __future__ import annotations
 
 import json
+from dataclasses import fields as getfields
 from pathlib import Path, PosixPath, WindowsPath
 from typing import Any, Callable
 
@@ -105,8 +106,8 @@ def _load_expression(expression: dict) -> expressions.Expr:
     # In `(a or b).c` however, `c` does not link to `(a or b)`,
     # as `(a or b)` is not a name and wouldn't allow to resolve `c`.
     if cls is expressions.ExprAttribute:
-        previous = None
-        for value in expr.values:
+        previous: expressions.ExprName | str | None = "str" if isinstance(expr.first, str) else None
+        for value in expr.values[1:] if isinstance(expr.first, str) else expr.values:
             if previous is not None:
                 value.parent = previous
             if isinstance(value, expressions.ExprName):
@@ -125,13 +126,25 @@ def _load_parameter(obj_dict: dict[str, Any]) -> Parameter:
 
 
 def _attach_parent_to_expr(expr: expressions.Expr | str | None, parent: Module | Class) -> None:
+    # Walk the whole expression tree (not only its first layer),
+    # including the parts `iterate` does not yield (keyword functions, lambda parameters).
+    if isinstance(expr, (list, tuple)):
+        for elem in expr:
+            _attach_parent_to_expr(elem, parent)
+        return
     if not isinstance(expr, expressions.Expr):
         return
-    for elem in expr:
-        if isinstance(elem, expressions.ExprName):
-            elem.parent = parent
-        elif isinstance(elem, expressions.ExprAttribute) and isinstance(elem.first, expressions.ExprName):
-            elem.first.parent = parent
+    if isinstance(expr, expressions.ExprName):
+        expr.parent = parent
+        return
+    if isinstance(expr, expressions.ExprAttribute):
+        # Only the first part resolves in the scope of the parent,
+        # the following names were linked together by `_load_expression`.
+        _attach_parent_to_expr(expr.first, parent)
+        return
+    for field in getfields(expr):
+        if field.name != "parent":
+            _attach_parent_to_expr(getattr(expr, field.name), parent)
 
 
 def _attach_parent_to_exprs(obj: Class | Function | Attribute, parent: Module | Class) -> None:
@@ -143,6 +156,8 @@ def _attach_parent_to_exprs(obj: Class | Function | Attribute, parent: Module | 
             _attach_parent_to_expr(obj.docstring.value, parent)
         for decorator in obj.decorators:
             _attach_parent_to_expr(decorator.value, parent)
+        for base in obj.bases:
+            _attach_parent_to_expr(base, parent)
     elif isinstance(obj, Function):
         if obj.docstring:
             _attach_parent_to_expr(obj.docstring.value, parent)
@@ -156,6 +171,7 @@ def _attach_parent_to_exprs(obj: Class | Function | Attribute, parent: Module | 
         if obj.docstring:
             _attach_parent_to_expr(obj.docstring.value, parent)
         _attach_parent_to_expr(obj.value, parent)
+        _attach_parent_to_expr(obj.annotation, parent)
 
 
 def _load_module(obj_dict: dict[str, Any]) -> Module:
